@@ -285,3 +285,99 @@ func (s *Sim) atomicAccess(p unsafe.Pointer, size uintptr, write bool, site stri
 	}
 	s.accessRange(p, size, write, true, site)
 }
+
+// ---- append and copy ----
+//
+// append(s, e...) within capacity writes into memory that every other slice of
+// the same array sees; two tasks appending to copies of one slice header write
+// the same bytes. The rewriter routes append and copy through these helpers so
+// that such writes take part in race detection and are pre-emption points.
+
+func (s *Sim) sparseRange(p unsafe.Pointer, size uintptr, write bool, site string) {
+	if size <= 512 {
+		s.accessRange(p, size, write, false, site)
+		return
+	}
+	// long ranges: the head, the tail and one word per KiB
+	s.accessRange(p, 256, write, false, site)
+	s.accessRange(unsafe.Add(p, size-64), 64, write, false, site)
+	for off := uintptr(1024); off+8 < size-64; off += 1024 {
+		s.accessRange(unsafe.Add(p, off), 8, write, false, site)
+	}
+}
+
+func noteAppend(site string, oldData unsafe.Pointer, oldLen int, newData unsafe.Pointer, newLen int, esz uintptr) {
+	s := cur
+	if s == nil || s.killing {
+		return
+	}
+	s.accessPoint(site)
+	if s.cfg.NoRace || esz == 0 || newLen <= oldLen {
+		return
+	}
+	if newData == oldData && oldData != nil {
+		s.sparseRange(unsafe.Add(oldData, uintptr(oldLen)*esz), uintptr(newLen-oldLen)*esz, true, site)
+	} else if oldLen > 0 {
+		// grown into a new array: the old elements were read
+		s.sparseRange(oldData, uintptr(oldLen)*esz, false, site)
+	}
+}
+
+func noteCopy(site string, dst, src unsafe.Pointer, n int, esz uintptr) {
+	s := cur
+	if s == nil || s.killing {
+		return
+	}
+	s.accessPoint(site)
+	if s.cfg.NoRace || esz == 0 || n <= 0 {
+		return
+	}
+	if src != nil {
+		s.sparseRange(src, uintptr(n)*esz, false, site)
+	}
+	s.sparseRange(dst, uintptr(n)*esz, true, site)
+}
+
+// Append is append(s, e...).
+func Append[S ~[]E, E any](site string, s S, e ...E) S {
+	r := append(s, e...)
+	var z E
+	noteAppend(site, unsafe.Pointer(unsafe.SliceData(s)), len(s), unsafe.Pointer(unsafe.SliceData(r)), len(r), unsafe.Sizeof(z))
+	return r
+}
+
+// AppendSlice is append(s, e...) with a slice e.
+func AppendSlice[S ~[]E, E any](site string, s S, e []E) S {
+	r := append(s, e...)
+	var z E
+	noteAppend(site, unsafe.Pointer(unsafe.SliceData(s)), len(s), unsafe.Pointer(unsafe.SliceData(r)), len(r), unsafe.Sizeof(z))
+	return r
+}
+
+// AppendString is append(s, str...) for a byte slice s.
+func AppendString[S ~[]byte](site string, s S, e string) S {
+	r := append(s, e...)
+	noteAppend(site, unsafe.Pointer(unsafe.SliceData(s)), len(s), unsafe.Pointer(unsafe.SliceData(r)), len(r), 1)
+	return r
+}
+
+// Copy is copy(dst, src).
+func Copy[E any](site string, dst, src []E) int {
+	n := len(dst)
+	if len(src) < n {
+		n = len(src)
+	}
+	var z E
+	noteCopy(site, unsafe.Pointer(unsafe.SliceData(dst)), unsafe.Pointer(unsafe.SliceData(src)), n, unsafe.Sizeof(z))
+	return copy(dst, src)
+}
+
+// CopyString is copy(dst, str).
+func CopyString(site string, dst []byte, src string) int {
+	n := len(dst)
+	if len(src) < n {
+		n = len(src)
+	}
+	noteCopy(site, unsafe.Pointer(unsafe.SliceData(dst)), nil, n, 1) // string bytes are immutable
+	return copy(dst, src)
+}
